@@ -1,20 +1,7 @@
 //! L1/L2 checks driven in-process. `vchecks <subcommand> --seed N --cases N --out DIR ...`
 
-mod c03s;
-mod c04;
-mod c05;
-mod c06;
-mod c07;
-mod c10;
-mod c11;
-mod c12;
-mod c13;
-mod c14;
-mod c15;
-mod c16t;
-mod c18;
-mod probes;
-mod c19;
+
+use vchecks::*;
 
 fn main() {
     let args = vmodel::ev::parse_args();
